@@ -257,7 +257,7 @@ func Materialise(root string, nodes []Node) {
 			must(os.WriteFile(p, n.data, 0o644))
 		case "link":
 			must(os.MkdirAll(filepath.Dir(p), 0o755))
-			must(os.Symlink(n.Link, p))
+			must(os.Symlink(strings.Replace(n.Link, "$ROOT/", root+"/", 1), p)) // ("$ROOT/": an absolute link into the tree itself)
 		}
 	}
 	for i := len(sorted) - 1; i >= 0; i-- {
